@@ -54,6 +54,14 @@ Theorem polars_compiles_alias_correctly : forall d c m st,
 Proof. intros d c m st C F. apply (pl_compile_correct_proof d (Alias c (Some m)) st C F). Qed.
 Print Assumptions polars_compiles_alias_correctly.
 
+(* SQL, plain alias() without a subquery: compile_ast leaves the query unchanged; a new identity shares the
+   definition and the label of the column it re-roots *)
+Theorem sql_compiles_alias_correctly : forall d c m cq,
+  compile (Alias c (Some m)) = Some cq -> flat_ok (Alias c (Some m)) = true ->
+  sem_query d cq = export_ref (do_alias (sem_ref d c) (Some m)).
+Proof. intros d c m cq C F. apply (sql_compile_correct_proof d (Alias c (Some m)) cq C F). Qed.
+Print Assumptions sql_compiles_alias_correctly.
+
 Theorem sql_compiles_alias_subquery_correctly : forall d c m cq,
   compile (SubqueryMarker (Alias c (Some m))) = Some cq -> flat_ok (SubqueryMarker (Alias c (Some m))) = true ->
   sem_query d cq = export_ref (do_alias (sem_ref d c) (Some m)).
@@ -70,6 +78,7 @@ Example alias_pipeline_example :
   let m := [(1%N, 11%N); (2%N, 12%N); (3%N, 13%N)] in
   let flt := fun c => Filter c [EFn Op_greater_than [ECol 13%N; ELit (VInt 0)] false [] []] in
   flat_ok (flt (SubqueryMarker (Alias w (Some m)))) = true
+  /\ flat_ok (Mutate (Alias w (Some m)) [("y"%string, 20%N, EFn Op_add [ECol 13%N; ECol 12%N] false [] [])]) = true
   /\ pflat_ok d (flt (Alias w (Some m))) = true
   /\ f_rows (export_ref (sem_ref d (flt (Alias w (Some m))))) = [[VInt 1; VInt 4; VInt 6]; [VInt 1; VInt 2; VInt 6]].
 Proof. vm_compute. repeat split; reflexivity. Qed.
